@@ -55,6 +55,32 @@ func SetJitter(on bool, seed uint64) {
 	jitterOn.Store(on)
 }
 
+// SetHold makes every Lock whose caller's function name contains fn sleep for d right after the acquisition: the
+// critical section takes that much longer, the way a slow disk or a large chunk makes it in production.  d == 0 turns
+// it off.  Meant for directed trials that need one lock to be held across a timer period.
+func SetHold(fn string, d time.Duration) {
+	holdFn.Store(fn)
+	holdDur.Store(int64(d))
+}
+
+var (
+	holdFn  atomic.Value
+	holdDur atomic.Int64
+)
+
+func hold() {
+	d := holdDur.Load()
+	if d == 0 {
+		return
+	}
+	fn, _ := holdFn.Load().(string)
+	if pc, _, _, ok := runtime.Caller(2); ok && fn != "" {
+		if f := runtime.FuncForPC(pc); f != nil && strings.Contains(f.Name(), fn) {
+			time.Sleep(time.Duration(d))
+		}
+	}
+}
+
 // SetTracking enables the holder / waiter bookkeeping.
 func SetTracking(on bool) { trackOn.Store(on) }
 
@@ -136,6 +162,7 @@ func (m *Mutex) Lock() {
 	Acquisitions.Add(1)
 	if !trackOn.Load() {
 		m.mu.Lock()
+		hold()
 		return
 	}
 	if m.mu.TryLock() {
@@ -144,6 +171,7 @@ func (m *Mutex) Lock() {
 		bk.Lock()
 		m.acquired(g, s)
 		bk.Unlock()
+		hold()
 		return
 	}
 	Contended.Add(1)
@@ -160,6 +188,7 @@ func (m *Mutex) Lock() {
 	delete(waiting, g)
 	m.acquired(g, s)
 	bk.Unlock()
+	hold()
 }
 
 // acquired is called with bk held.
